@@ -315,7 +315,7 @@ def whenAllResult (rcvStopped : Bool) (st : BinSt) : Outcome :=
 
 def finResult (saved : Option Outcome) (ob : Outcome) : Outcome :=
   match ob with
-  | .value _ => saved.getD .done
+  | .value _ => saved.getD (.error 0)   -- (the saved result is always present when the completion sender runs)
   | .error e => .error e
   | .done => .done
 
